@@ -31,7 +31,7 @@ type killedHandler struct {
 // handleChildDeath 处理子 Actor 死亡
 func (h *killedHandler) handleChildDeath() {
 	if !h.message.Ref.Equals(h.ctx.ref) {
-		remaining := h.ctx.removeChild(h.message.Ref.GetPath())
+		remaining := h.ctx.removeChild(h.message.Ref)
 		h.ctx.executeBehaviorWithRecovery(h.behavior)
 		h.ctx.Logger().Debug("child death", log.Int("children_count", remaining), log.String("ref", h.ctx.ref.GetPath()), log.String("child", h.message.Ref.GetPath()))
 	}
